@@ -16,7 +16,7 @@ import numpy as np
 LEVEL = "exploration"
 EXHAUSTIVE = {"quick": False, "thorough": False}
 RULE = (
-    "registry of 85 call forms (arithmetic, comparisons, astype/img_as/to_trichromatic(return_image=True)/to_monochromatic, "
+    "registry of 88 call forms (arithmetic, comparisons, astype/img_as/to_trichromatic(return_image=True)/to_monochromatic, "
     "subregion/time_slice/time_interval/slice, weight, superpose, stack, append, Resize/resize/equalize_voxel_size/"
     "uniform_refinement, reduce_axis/extrude_along_axis, models, Geometry.integrate/normalize, EMD, wasserstein_distance, "
     "zeros_like/ones_like, bounding_box, random_patches, coordinate conversions, layout helpers, Image(...) built from "
@@ -128,6 +128,13 @@ def build_registry(darsia, rng):
     vox = darsia.make_voxel([[0, 1], [shp[0] - 1, shp[1]]])
     add("subregion_slices", [A, sl], lambda: A.subregion(sl))
     add("subregion_voxels", [V1, vox], lambda: V1.subregion(vox))
+    # boxes reaching outside the image (negative corner, corner beyond the last voxel), typed voxels and coordinates
+    vox_out = darsia.make_voxel([[-2, 1], [shp[0] + 3, shp[1] + 2]])
+    add("subregion_voxels_outside", [A, vox_out], lambda: A.subregion(vox_out))
+    vox_out2 = darsia.make_voxel([[1, -3], [shp[0] - 1, shp[1] + 5]])
+    add("subregion_voxels_outside_series", [S1, vox_out2], lambda: S1.subregion(vox_out2))
+    co_out = darsia.make_coordinate(np.asarray(A.coordinatesystem.coordinate(np.array([[-1.5, -0.5], [shp[0] + 1.5, shp[1] + 2.5]]))))
+    add("subregion_coordinates_outside", [A, co_out], lambda: A.subregion(co_out))
     co = darsia.make_coordinate(np.asarray(A.coordinatesystem.coordinate(np.array([[0.5, 0.5], [shp[0] - 0.5, shp[1] - 0.5]]))))
     add("subregion_coordinates", [S1, co], lambda: S1.subregion(co))
     add("time_slice", [S1], lambda: S1.time_slice(1))
@@ -369,7 +376,7 @@ def run_shard(spec, R):
 
 MANIFEST = {
     "technique": "snapshot monitor (deep content snapshots of every argument, of all live operands in call chains, and of the global numpy/python RNG state) around a fixed registry of call forms; array-arithmetic oracle",
-    "level_text": "Every call form of a 85-entry registry is executed on several random operand sets of every image kind with all arguments and the global random state snapshotted before and compared after; random chains of up to five calls on a shared operand pool (results fed back, so that metadata containers shared between images become observable) snapshot the whole pool at every step. Arithmetic results are compared bitwise with raw-array arithmetic for the documented scalar types.",
+    "level_text": "Every call form of a 88-entry registry is executed on several random operand sets of every image kind with all arguments and the global random state snapshotted before and compared after; random chains of up to five calls on a shared operand pool (results fed back, so that metadata containers shared between images become observable) snapshot the whole pool at every step. Arithmetic results are compared bitwise with raw-array arithmetic for the documented scalar types.",
     "level_note": "The registry is a fixed list (functions not in it are not observed); Image.append modifies its receiver by documentation, only its argument is judged.",
     "design_ref": "DESIGN.md section 3, C17",
 }
